@@ -54,7 +54,7 @@ var reCollection = regexp.MustCompile(`^([a-z]|X[0-9]+)s$`)
 func C07(e *core.Env) {
 	res := e.Res
 	res.Rule = "cases = well-formed declarative profiles that must compile: (a) N nested constraints side by side in one validation, N in 1..40 crossing the 25-letter boundary (quick: 14 values, thorough: all), (b) nesting depth 1..7, (c) 1..30 validations over the three levels, (d) every documented constraint kind x path shape (single, sequence, alternative, inverse, alternative inside a sequence inside an alternative, @type), (e) several constraints of one kind in one rule body (or / if / not-and), with messages of 0..3 placeholders, (f) seeded random formulas; " +
-		"for (a) and (b) the quantified variables and collections found in the real module (parsed with the engine's parser) must be exactly the model's var_name / plural; (i) the string literal written for 12 patterns and the set literal written for 6 value lists, text against text with the Coq model; (h) 28 legal but degenerate / unusual arguments (empty lists, zero counts, patterns with a backtick / quote / backslash class / newline, path keys over several lines or with tabs, zero / negative / float bounds, quantifier counts 0 and 10^6) plain and under not; (j) 8 level listings (a validation under two / three levels, twice under one level, a level listing only validations another level lists too); (k) histories: two well-formed profiles compiled three times after each of 6 refused profiles (undeclared prefix in a path / class / placeholder, broken Rego, a non-path, no YAML); (l) the text of the path rules (values and nodes mode) of every path with <= 2 leaves and a sample with 3, line by line against PathGen.path_rule_lines; (g) 24 texts (each control / format / astral / quoting character on its own) x {profile name, validation name, message, list value}; non-trivial = every case; distinct by profile text"
+		"for (a) and (b) the quantified variables and collections found in the real module (parsed with the engine's parser) must be exactly the model's var_name / plural; (i) the string literal written for 12 patterns and the set literal written for 6 value lists, text against text with the Coq model; (h) 28 legal but degenerate / unusual arguments (empty lists, zero counts, patterns with a backtick / quote / backslash class / newline, path keys over several lines or with tabs, zero / negative / float bounds, quantifier counts 0 and 10^6) plain and under not; (j) 8 level listings (a validation under two / three levels, twice under one level, a level listing only validations another level lists too); (k) histories: two well-formed profiles compiled three times after each of 6 refused profiles (undeclared prefix in a path / class / placeholder, broken Rego, a non-path, no YAML); (l) the text of the path rules (values and nodes mode) of every path with <= 2 leaves and a sample with 3, over regular and custom (api-extension) properties, line by line against PathGen.path_rule_lines; (g) 24 texts (each control / format / astral / quoting character on its own) x {profile name, validation name, message, list value}; non-trivial = every case; distinct by profile text"
 	compile := func(label, profile string, known func(err error) bool) bool {
 		_, err := pkg.CompileProfile(profile, false, nil)
 		if err == nil {
@@ -452,6 +452,14 @@ func C07(e *core.Env) {
 		p3 := EnumPaths(3, lv, 1<<30)
 		for i := 0; i < len(p3); i += e.Pick(9, 1) {
 			ps = append(ps, p3[i])
+		}
+		// custom (annotation) properties of the api-extension vocabulary, forward and inverse, in every position
+		cv := []PExp{Pr("ex.a", false), Pr("apiExt.wadus", false), Pr("apiExt.wadus", true), Pr("ex.b", true)}
+		ps = append(ps, EnumPaths(1, cv, 1<<30)...)
+		ps = append(ps, EnumPaths(2, cv, 1<<30)...)
+		c3 := EnumPaths(3, cv, 1<<30)
+		for i := 0; i < len(c3); i += e.Pick(7, 1) {
+			ps = append(ps, c3[i])
 		}
 		for _, pth := range ps {
 			if !pathRuleText(e, res, pth) {
